@@ -230,6 +230,12 @@ impl Fixtures {
             amp.push(("sourceroot-x-sources", format!(
                 "{{\"version\":3,\"sourceRoot\":\"{long}\",\"sources\":[{}],\"names\":[],\"mappings\":\"AAAA,CAAC\"}}",
                 many("\"s\""))));
+            // small enough to decode within the allocation limit; every source is referenced by a
+            // token, so rewrite carries all of them (and their prefix) into the next generation
+            let root2k = &long[..2048];
+            amp.push(("sourceroot-x-referenced-sources", format!(
+                "{{\"version\":3,\"sourceRoot\":\"{root2k}\",\"sources\":[{}],\"names\":[],\"mappings\":\"AAAA{}\"}}",
+                (0..2500).map(|_| "\"s\"").collect::<Vec<_>>().join(","), ",CCAA".repeat(2499))));
             amp.push(("sourceroot-x-absolute-sources", format!(
                 "{{\"version\":3,\"sourceRoot\":\"{long}\",\"sources\":[{}],\"names\":[],\"mappings\":\"AAAA,CAAC\"}}",
                 many("\"/s\""))));
